@@ -128,3 +128,32 @@ Theorem c03_roles_source_full_model : forall p hs g t,
   (In t (map RD.key (B.source_tables g)) <-> spec_source (map RD.abs_holder hs) t).
 Proof. exact R.transfer_roles_source. Qed.
 Print Assumptions c03_roles_source_full_model.
+
+(** * End to end on the tree model (Tree/HolderInv.v, Tree/ScriptRoles.v): the roles the whole pipeline reports for a script equal
+    the roles computed from the SPECIFIED reads and writes of its statements (Ast/Spec.v) by the property's own definition
+    (source: read and never written, or self-reading, or only read by a statement that writes nothing; target symmetrically;
+    intermediate: both, not self-reading).  Proved in full for scripts of the core fragment (INSERT [cols] / CTAS / VIEW over one
+    SELECT from base tables, plain SELECTs, no-data statements), any trivia; for the WHOLE fragment of Lemma A (derived tables,
+    unions, WHERE-IN, CTEs, any nesting) the same conclusion is proved from ONE remaining closed statement about the extractor,
+    [extract_HI_statement] (every holder the extractor returns satisfies the structural invariant HI: attribute keys, edge
+    types, no dataset-to-dataset edge, closed targets - each extractor operation is proved to preserve it in Tree/HolderInv.v;
+    the induction through [extract] itself is not done); its consequence [wf_holder] is evaluated on every real holder of the tie. *)
+From SV Require Import Tree.Observe Tree.Render Tree.LemmaA Tree.LemmaAProofs Tree.LemmaB Tree.LemmaBProofs Tree.ScriptExact Tree.ScriptExactExt Tree.HolderInv Tree.ScriptRoles.
+
+Theorem c03_script_roles_exact_on_core : forall noise e ss,
+  noise_ok noise = true -> env_ok e = true ->
+  Forall (fun s => core_stmt_ext s /\ stmt_ok s = true /\ sshape s = true) ss ->
+  script_sources e false [] (map (r_stmt noise) ss) = spec_sources (e_cfg e) ss /\
+  script_targets e false [] (map (r_stmt noise) ss) = spec_targets (e_cfg e) ss /\
+  script_intermediates e false [] (map (r_stmt noise) ss) = spec_intermediates (e_cfg e) ss.
+Proof. exact script_roles_exact_on_core_ext. Qed.
+Print Assumptions c03_script_roles_exact_on_core.
+
+Theorem c03_script_roles_exact_on_lemma_A_fragment_partial : extract_HI_statement -> forall noise e ss,
+  noise_ok noise = true -> env_ok e = true ->
+  Forall (fun s => stmt_ok s = true /\ sshape s = true) ss ->
+  script_sources e false [] (map (r_stmt noise) ss) = spec_sources (e_cfg e) ss /\
+  script_targets e false [] (map (r_stmt noise) ss) = spec_targets (e_cfg e) ss /\
+  script_intermediates e false [] (map (r_stmt noise) ss) = spec_intermediates (e_cfg e) ss.
+Proof. exact script_roles_exact_on_core_partial. Qed.
+Print Assumptions c03_script_roles_exact_on_lemma_A_fragment_partial.
